@@ -159,6 +159,17 @@ func GetFileNameList(path string, ignoreList []string) (fields []Field, err erro
 	return fields, nil
 }
 
+// ReservedFileName reports whether name is one the server uses itself next to a file: the information and resource
+// fork side files (.info_<name>, .rsrc_<name>) and the partial upload (<name>.incomplete).  A client that creates an
+// entry under such a name sets another file's comment, type or data without being asked for the privilege.
+func ReservedFileName(name string) bool {
+	base := filepath.Base(filepath.Join("/", name))
+
+	return strings.HasPrefix(base, strings.TrimSuffix(InfoForkNameTemplate, "%s")) ||
+		strings.HasPrefix(base, strings.TrimSuffix(RsrcForkNameTemplate, "%s")) ||
+		strings.HasSuffix(base, IncompleteFileSuffix)
+}
+
 // TouchesDropBox reports whether the folder at fullPath is a drop box, lies inside one, or holds one somewhere below it:
 // sending such a folder item by item shows what is in the drop box just as listing it would.
 func TouchesDropBox(fileRoot, fullPath string) bool {
